@@ -8,29 +8,41 @@ one action, in schedule order.  After every action the abstract state of the imp
     cache keys present (code, options, factory)   - read from the real WeakKeyDictionary
     lock owner / re-entrancy depth                - read from the real RLock
     successful transform_ast calls per key        - counted by the transform_ast override
-    results returned so far (code, env, options, factory, env the result is bound to)
+    results returned so far (code, env, options, factory, env the result is bound to - the identity of the cells)
     live function objects
+    contents of the closure cells of every environment
+    addresses of the live code objects (up to renaming: equal in the specification <=> equal id() here)
 
-is compared with the state TLC printed.  Environment actions (Redefine, Collect) are performed by the
-controller itself on the pool.  At the end every returned function is compared with a fresh conversion.
+is compared with the state TLC printed.  Environment actions (Redefine, Collect, Rebind) are performed by the
+controller itself on the pool: function objects of one environment share their cells (Rebind assigns to them),
+a redefinition's code object is placed where the specification says - at a new address or at the address of a
+dead code object (the allocator is asked until it hands that block out again; a schedule for which it does not
+is counted as unrealised, never as a difference).  At the end every returned function is compared with a fresh
+conversion.
 """
 import gc
 import os
 import sys
 import tempfile
 import threading
+import types
 
 from . import common
 from . import c10_pool as poolmod
 from . import c10_probe as probemod
 
-# env id -> (globals index, closure value k, default value dv); three layouts so that the pair (1, 2), which
-# shares a code object in the model's initial state, differs in globals / in the closure / in the defaults only
+# env id -> (globals index, default value dv); every environment has cells of its own, what they hold comes from
+# the specification (cellval).  Three layouts so that the pair (1, 2), which shares a code object in the model's
+# initial state, differs in globals and cells / in the cells only / in defaults and cells
 LAYOUTS = [
-    {1: (0, 1, 10), 2: (1, 1, 10), 3: (0, 2, 10), 4: (0, 1, 20), 5: (1, 2, 20), 6: (1, 3, 30)},
-    {1: (0, 1, 10), 2: (0, 2, 10), 3: (1, 1, 10), 4: (0, 1, 20), 5: (1, 2, 20), 6: (1, 3, 30)},
-    {1: (0, 1, 10), 2: (0, 1, 20), 3: (1, 1, 10), 4: (0, 2, 10), 5: (1, 2, 20), 6: (1, 3, 30)},
+    {1: (0, 10), 2: (1, 10), 3: (0, 10), 4: (0, 20), 5: (1, 20), 6: (1, 30)},
+    {1: (0, 10), 2: (0, 10), 3: (1, 10), 4: (0, 20), 5: (1, 20), 6: (1, 30)},
+    {1: (0, 10), 2: (0, 20), 3: (1, 10), 4: (0, 10), 5: (1, 20), 6: (1, 30)},
 ]
+
+
+class Unrealised(Exception):
+    """The allocator did not place a code object where the schedule wants it."""
 
 
 def options_for(oid, layout=0):
@@ -64,26 +76,60 @@ class ReplayPool:
         self.base = base_version
         self.globs = [poolmod.new_globals('c10replay_g0', 100), poolmod.new_globals('c10replay_g1', 200)]
         self.fns = {}
+        self.cells = {}         # env -> (cell,): the function objects of one environment share them
+        self.codes = {}         # code id -> the live code object
+        self.templates = {}     # code id -> its compiled code object (the template: never a key of the cache)
+        self.real_addr = {}     # address in the specification -> id() here
+        self.reused = 0
 
-    def define(self, pairs):
-        """Creates the function objects for [(code, env)] - all function objects of one code at once, from one
-        compilation, so that they share the code object."""
-        by_code = {}
+    def precompile(self, codes):
+        """All compilations happen before the first code object dies (a compilation allocates code objects of its own,
+        which would take the block of a dead one)."""
+        for c in codes:
+            ns = poolmod.new_globals('c10replay_t%d' % c, 0)
+            exec(self.sources.compile(self.base + c), ns)
+            self.templates[c] = ns['make'](0, 0).__code__
+
+    def set_cells(self, pairs):
+        for e, v in pairs:
+            if e not in self.cells:
+                self.cells[e] = (types.CellType(v),)
+            else:
+                self.cells[e][0].cell_contents = v
+
+    def _new_code(self, c, a):
+        """A new code object for code id c at the specification's address a: what executing the def gives is a new
+        code object - here a copy of the compiled template, so that exactly one block of the allocator is involved."""
+        tcode = self.templates[c]
+        want = self.real_addr.get(a)
+        taken = set(self.real_addr.values())
+        parked = []
+        while True:
+            code = tcode.replace(co_name=tcode.co_name)
+            if (id(code) == want) if want is not None else (id(code) not in taken):
+                break
+            parked.append(code)
+            if len(parked) > 1000:
+                raise Unrealised('no code object at the address of the dead one after %d allocations' % len(parked))
+        if want is not None:
+            self.reused += 1
+        self.real_addr[a] = id(code)
+        self.codes[c] = code
+        self.reg.set_code(code, c)
+        return code
+
+    def define(self, pairs, addr):
+        """Creates the function objects for [(code, env)]; addr: code id -> address in the specification."""
         for c, e in pairs:
-            by_code.setdefault(c, []).append(e)
-        for c, envs in by_code.items():
-            mc = self.sources.compile(self.base + c)
-            for e in envs:
-                gi, k, dv = self.layout[e]
-                g = self.globs[gi]
-                exec(mc, g)
-                fn = g['make'](k, dv)
-                poolmod.forget_factories(g)
-                self.reg.set_code(fn.__code__, c)
-                self.reg.set_env(fn, e)
-                self.fns[(c, e)] = fn
-                del fn
-            del mc
+            code = self.codes.get(c)
+            if code is None:
+                code = self._new_code(c, addr[c])
+            gi, dv = self.layout[e]
+            fn = types.FunctionType(code, self.globs[gi], 'fn', (dv,), self.cells[e])
+            fn.__kwdefaults__ = {'kw': dv}
+            self.reg.set_env(fn, e)
+            self.fns[(c, e)] = fn
+            del fn, code
 
     def fn(self, c, e):
         return self.fns[(c, e)]
@@ -91,6 +137,7 @@ class ReplayPool:
     def collect(self, c):
         for key in [k for k in self.fns if k[0] == c]:
             del self.fns[key]
+        self.codes.pop(c, None)
         gc.collect()
         if self.reg.code_alive(c):
             raise common.MachineryError('C10 replay: code object %d is still alive after the pool dropped it' % c)
@@ -98,13 +145,21 @@ class ReplayPool:
     def keys(self):
         return sorted(self.fns)
 
+    def abs_cells(self):
+        return sorted((e, cs[0].cell_contents) for e, cs in self.cells.items())
+
+    def abs_addr(self):
+        back = {r: a for a, r in self.real_addr.items()}
+        return sorted((c, back.get(id(code), 0)) for c, code in self.codes.items())
+
 
 def _norm_spec_state(s):
     return dict(cache=sorted((c, o, tuple(f)) for c, o, f in s['cache']),
                 owner=s['owner'], depth=s['depth'],
                 ntr=sorted(tuple(x) for x in s['ntr']),
                 ret=sorted((c, e, o, tuple(f), r) for c, e, o, f, r in s['ret']),
-                fns=sorted(tuple(x) for x in s['fns']))
+                fns=sorted(tuple(x) for x in s['fns']),
+                cells=sorted(tuple(x) for x in s['cells']), addr=sorted(tuple(x) for x in s['addr']))
 
 
 def replay_schedule(job):
@@ -125,7 +180,11 @@ def replay_schedule(job):
     T = probemod.traced_transpiler(probe)
     sources = poolmod.sources_for(os.path.join(root, 'src'))
     pool = ReplayPool(sources, reg, job.get('layout', 0), 5000)
-    pool.define([tuple(p) for p in job['init_fns']])
+    if not hist or hist[0]['a'] != 'Init':
+        raise common.MachineryError('C10 replay: a schedule starts with the record of the initial state')
+    pool.precompile(sorted({x[0] for h in hist for x in h['s']['fns']}))
+    pool.set_cells([tuple(x) for x in hist[0]['s']['cells']])
+    pool.define([tuple(p) for p in job['init_fns']], dict(tuple(x) for x in hist[0]['s']['addr']))
     for p in job['init_fns']:
         probe.known_fns.add(tuple(p))
     tids = sorted({h['t'] for h in hist if h['t'] != 0})
@@ -186,17 +245,26 @@ def replay_schedule(job):
         owner, depth = probe.abs_lock()
         return dict(cache=sorted(probe.abs_cache()), owner=owner, depth=depth,
                     ntr=sorted((c, o, n) for (c, o), n in probe.ntr.items() if n),
-                    ret=sorted(probe.returned), fns=pool.keys())
+                    ret=sorted(probe.returned), fns=pool.keys(), cells=pool.abs_cells(), addr=pool.abs_addr())
 
     divergence = None
+    unrealised = None
     steps = 0
     try:
         for i, h in enumerate(hist):
             a, t = h['a'], h['t']
-            if a == 'Redefine':
+            if a == 'Init':
+                pass
+            elif a == 'Redefine':
                 c, e, newc = h['x']
-                pool.define([(newc, e)])
+                try:
+                    pool.define([(newc, e)], dict(tuple(x) for x in h['s']['addr']))
+                except Unrealised as u:
+                    unrealised = str(u)
+                    break
                 probe.known_fns.add((newc, e))
+            elif a == 'Rebind':
+                pool.set_cells([(h['x'][0], h['x'][1])])
             elif a == 'Collect':
                 compare_results(only_code=h['x'][0])
                 pool.collect(h['x'][0])
@@ -219,7 +287,7 @@ def replay_schedule(job):
                                   impl={k: got[k] for k in bad}, spec={k: want[k] for k in bad},
                                   exceptions=list(unexpected))
                 break
-        if divergence is None:
+        if divergence is None and unrealised is None:
             for t in tids:
                 try:
                     ctl.step(t, 'Exit', dict(a='Exit', t=t, x=[0, 0, 0]))
@@ -234,6 +302,8 @@ def replay_schedule(job):
         for th in threads.values():
             th.join(30)
         hung = [t for t, th in threads.items() if th.is_alive()]
+    if unrealised is not None:
+        unexpected, hung = [], []
     if divergence is None and unexpected:
         divergence = dict(step=len(hist), action='-', thread=0, kind='exception', detail=repr(unexpected[0]),
                           exceptions=list(unexpected))
@@ -246,7 +316,7 @@ def replay_schedule(job):
     common.rmtree(os.path.join(root, 'tmp'))
     tempfile.tempdir = old_tmp
     return dict(id=job['id'], ok=divergence is None and not diffs, steps=steps, divergence=divergence, diffs=diffs,
-                requests=len(probe.returned))
+                requests=len(probe.returned), unrealised=unrealised, reused=pool.reused)
 
 
 def signature(div):
